@@ -411,10 +411,12 @@ pub mod sr {
             self.m.step(last, &action)
         }
         fn properties(&self) -> Vec<stateright::Property<Self>> {
+            // violations listed as known findings do not count: stateright stops exploring as soon as every
+            // property has a discovery, so a known finding would otherwise end the search early
             vec![stateright::Property::<Self>::always("invariants", |a, s| {
                 let mut obs = Obs::new();
                 let r = guard(|| a.m.check(s, &mut obs));
-                r.is_ok() && obs.violations.is_empty()
+                r.is_ok() && obs.violations.iter().all(|v| is_known_key(&v.key))
             })]
         }
     }
@@ -495,6 +497,11 @@ fn glob_match(pat: &str, s: &str) -> bool {
         }
     }
     true
+}
+
+pub fn is_known_key(key: &str) -> bool {
+    static KNOWN: std::sync::OnceLock<Vec<KnownFinding>> = std::sync::OnceLock::new();
+    KNOWN.get_or_init(load_known_findings).iter().any(|k| glob_match(&k.key_glob, key))
 }
 
 fn load_known_findings() -> Vec<KnownFinding> {
@@ -596,7 +603,7 @@ impl Report {
                 name, n, ours
             ));
         }
-        let ours_viol = self.violations.iter().any(|v| v.model == name);
+        let ours_viol = self.violations.iter().any(|v| v.model == name && !is_known_key(&v.v.key));
         if disc != ours_viol {
             self.machinery_errors.push(format!(
                 "cross-engine verdict mismatch for {}: stateright discovery={} explorer violations={}",
